@@ -41,6 +41,38 @@ func init() {
 		}
 		return "", ""
 	})
+	// One field through the wire: args (structure, fields, field index).  Finer than c04.roundtrip: the
+	// finding key names the field, so a recorded loss of one field does not hide the loss of another.
+	Oracle("c04.field_roundtrip", func(a []Val) (string, string) {
+		name := a[0].Str()
+		i := int(a[2].Int())
+		x := smbNew(name)
+		cmdSet(x, a[1])
+		b, err := x.Marshal()
+		if err != nil {
+			return "", ""
+		}
+		sent := cmdGet(x)
+		y := smbNew(name)
+		ok := func() (ok bool) {
+			defer func() {
+				if recover() != nil {
+					ok = false
+				}
+			}()
+			_, err := y.Unmarshal(exact(b))
+			return err == nil
+		}()
+		if !ok {
+			return "", "" // reported by c04.roundtrip (decode-rejects-own-encoding / panic)
+		}
+		got := cmdGet(y)
+		if i < len(sent.L) && i < len(got.L) && !valsEqual(sent.L[i], got.L[i]) {
+			fname := cmdFieldNames(x)[i]
+			return "C04/" + name + "/" + fname + "/lost", fmt.Sprintf("%s.%s does not survive the wire: sent %s got %s (bytes %x)", name, fname, sent.L[i].String(), got.L[i].String(), b)
+		}
+		return "", ""
+	})
 	// Slots: changing one fixed-width field changes only a contiguous run of bytes no wider than the
 	// field: args (structure, fields, field index, new value)
 	Oracle("c04.slot", func(a []Val) (string, string) {
@@ -100,6 +132,9 @@ func genC04(c *Ctx) {
 				fields = genFieldsMode(r, name, 2) // the smallest in-domain structure
 			}
 			c.Check("c04.roundtrip", S(name), fields)
+			for k := range fields.L {
+				c.Check("c04.field_roundtrip", S(name), fields, I(int64(k)))
+			}
 			if d != nil && d.Translated {
 				out := c.Case("smb.marshal", S(name), fields, I(1))
 				// decode what was encoded, and truncations of it
